@@ -13,7 +13,10 @@ Decided:
   TABLE   LanceFileVersion: from_str(to_string(v)) = v, try_from_major_minor(to_numbers(v)) = resolve(v), resolve is
           idempotent and alias-free, declaration order (derived Ord) is monotone in to_numbers -- interpreted from MIR
           over all 6 variants
-Not decided: flags after arbitrary histories (follows from recompute-on-every-commit), per-file storage versions.
+  COVER   check_storage_version -> try_infer_version(manifest.fragments) iterates every fragment and every fragment's files as a
+          whole and compares versions inside that iteration (a sample of the files is not enough)
+Not decided: flags after arbitrary histories (follows from recompute-on-every-commit); that every writer stamps its files
+with the right version.
 """
 from engine import absint
 from engine.absint import Abort, Ref, mk_adt
@@ -322,6 +325,43 @@ def check_storage_version_dom(db, chk):
                "check_storage_version dominates the publication in %s" % f.path, body.loc())
 
 
+def check_storage_version_covers_all_files(db, chk):
+    """"A table's files all carry the table's storage version" is enforced at commit by check_storage_version ->
+    Fragment::try_infer_version(manifest.fragments): that function has to look at every data file of every fragment (a column
+    added later lives in the second, third ... file of a fragment), not at a sample."""
+    R = "COVER-storage-version"
+    chk.rule(R, "check_storage_version hands the manifest's whole fragment list to try_infer_version, which iterates every fragment "
+                "and every fragment's `files` as a whole and compares versions inside that iteration")
+    csv = db.one(r"io::commit::check_storage_version$", file="lance/src/io/commit.rs")
+    chk.analysed(csv)
+    cs = calls(csv, "Fragment::try_infer_version")
+    chk.ob(R, "whole-manifest", len(cs) >= 1 and all({("field", "fragments"), ("arg", 1)} <= csv.cfg.op_origins(t["args"][0]) for _, t in cs),
+           "check_storage_version calls try_infer_version %d time(s), each with manifest.fragments" % len(cs), csv.loc())
+    f = db.one(r"format::fragment::Fragment::try_infer_version$", file="lance-table/src/format/fragment.rs")
+    fam = [g for g in f.family() if g.focus]
+    for g in fam:
+        chk.analysed(g)
+    ITER = ("IntoIterator>::into_iter", "IntoIterator for &'a [T]>::into_iter", "<impl [T]>::iter", "Vec::<T, A>::iter", "::into_iter")
+    c = f.cfg
+    frag_loops = [(b, t) for b, t in c.calls() if has_name(t, *ITER) and ("arg", 1) in c.op_origins(t["args"][0]) and ("field", "files") not in c.op_origins(t["args"][0])]
+    chk.ob(R, "iterates-fragments", bool(frag_loops), "try_infer_version iterates its `fragments` argument (%d iteration(s))" % len(frag_loops), f.loc())
+    files_iters = [(g, b, t) for g in fam for b, t in g.cfg.calls() if has_name(t, *ITER) and ("field", "files") in g.cfg.op_origins(t["args"][0])]
+    chk.ob(R, "iterates-files", bool(files_iters),
+           "try_infer_version iterates `Fragment.files` as a whole (%d iteration(s)); element picks such as files[0] / first() look at a sample only" % len(files_iters),
+           f.loc(files_iters[0][2]["ln"]) if files_iters else f.loc())
+    cmps = [(g, b, t) for g in fam for b, t in g.cfg.calls() if has_name(t, "PartialEq::ne", "PartialEq::eq", "PartialEq>::ne", "PartialEq>::eq")]
+    inside = False
+    for g, b, t in files_iters:
+        nexts = [nb for nb, nt in g.cfg.calls() if has_name(nt, "Iterator>::next") and b in g.cfg.reachable_from([0], include_start=True) and nb in g.cfg.reachable_from([b])]
+        for g2, cb, ct in cmps:
+            if g2 is g and any(g.cfg.dominates(nb, cb) for nb in nexts):
+                inside = True
+    in_closure_only = bool(files_iters) and all(g is not f for g, _, _ in files_iters)
+    chk.ob(R, "compares-inside", inside or (in_closure_only and bool(cmps)),
+           "a version comparison lies inside the iteration over the files (%s)" % ("loop body" if inside else "files iterated in a closure; comparison present" if in_closure_only and cmps else "no"),
+           f.loc(cmps[0][2]["ln"]) if cmps else f.loc())
+
+
 # ------------------------------------------------------------------ LanceFileVersion tables
 VERSION_FILE = "lance-encoding/src/version.rs"
 
@@ -458,6 +498,7 @@ def run(db, chk):
     check_reader_gate(db, chk)
     check_writer_gate(db, chk)
     check_storage_version_dom(db, chk)
+    check_storage_version_covers_all_files(db, chk)
     check_versions(db, chk)
     # "the flags written always reflect the table contents": every manifest passes write_manifest_file last (commits, clones,
     # branch creation), and there the flags are recomputed from the final manifest before the handler publishes it (rule shared
